@@ -12,6 +12,8 @@ SCENARIOS = {
     # generic smooth 4-metric, T := (G + Lambda g)/kappa supplied as Tdown4 (every metric is a solution)
     'onshell': dict(mode='onshell', matter='T', input_form='tensor'),
     'onshell_comp': dict(mode='onshell', matter='T', input_form='components'),
+    # Ricci-flat data (vacuum flag consistent with the data: T = 0, Lambda = 0)
+    'onshell_vac': dict(mode='onshell', matter='none', input_form='tensor', vacuum=True),
     'onshell_fluidtetrad': dict(mode='onshell', matter='T', input_form='tensor', tetrad='fluid'),
     # free 3+1 data (not tied to a 4-metric) with a moving perfect fluid
     'fluid': dict(mode='free', matter='fluid', input_form='tensor', order=1),
